@@ -161,6 +161,14 @@ def specRecv (cfg : Cfg) (got : List Node) (u v : Node) (o : Out) : Option Strin
     else none
   | _ => none
 
+/-- clause check for a send of the id by `u` to `w` that is not the forward of a first receipt (the
+answer to an IWANT; gossip is not part of the model): `w` must not be the peer `u` got the message
+from, nor the message's source. `src` = observed (node, propagation source) pairs. -/
+def specSend (cfg : Cfg) (src : List (Node × Node)) (u w : Node) : Option String :=
+  if src.contains (u, w) then some "echo_prop"
+  else if cfg.source == some w then some "echo_source"
+  else none
+
 def gotAfter (got : List Node) (v : Node) (o : Out) : List Node :=
   match o with
   | .first _ => v :: got
